@@ -152,8 +152,14 @@ impl Dist {
 				}
 				ordered_kvs.push((n, prob, prob_f64));
 			}
-			ordered_kvs.sort_unstable_by(|(a, _, _), (b, _, _)| {
-				a.compare(b, &Never).unwrap().unwrap_or(Ordering::Equal)
+			// total order (real part, then imaginary part): `Complex::compare`
+			// is undefined for non-real outcomes, and treating that as
+			// `Equal` is not a total order, which `sort` may answer with a panic
+			ordered_kvs.sort_by(|(a, _, _), (b, _, _)| {
+				a.real()
+					.compare(&b.real(), &Never)
+					.unwrap()
+					.then_with(|| a.imag().compare(&b.imag(), &Never).unwrap())
 			});
 			if ctx.output_mode == crate::OutputMode::SimpleText {
 				write!(out, "{{ ")?;
